@@ -42,6 +42,12 @@ func main() {
 			a, b := difflib.WritePair(filepath.Join(c.Scratch, "edits", fmt.Sprint(i)), e.Old, e.New)
 			pairs = append(pairs, pair{id: e.ID, class: "edit", a: a, b: b, kind: e.Kind})
 		}
+		// one named element respelled (by case only, or renamed): the "deleted" of one side is
+		// the "added" of the other at the same place
+		for i, e := range difflib.RenameEdits() {
+			a, b := difflib.WritePair(filepath.Join(c.Scratch, "renames", fmt.Sprint(i)), e.Old, e.New)
+			pairs = append(pairs, pair{id: e.ID, class: "rename", a: a, b: b})
+		}
 		for k := 0; k < c.Pick(200, 2000); k++ {
 			e, names := difflib.WithNoise(edits[rng.Intn(len(edits))], rng, "base-recursive-prop", "base-extra-definition")
 			a, b := difflib.WritePair(filepath.Join(c.Scratch, "noise", fmt.Sprint(k)), e.Old, e.New)
